@@ -232,6 +232,34 @@ def run(tier):
                 R.fail(sig, {"text": ex, "filename": fname}, out[-1])
     R.set("regression_anchors", len(anchors))
 
+    # (a') long digit runs: every place where the library converts digits to a
+    # number (int() refuses more than 4300 digits, float() overflows) or where a
+    # regex runs over them - around the interpreter's limit and far beyond
+    long_runs = 0
+    for nd in (4299, 4300, 4301, 5000) if quick else (4299, 4300, 4301, 5000, 20000, 100000):
+        dec, hexd, octd, bind = "9" * nd, "f" * nd, "7" * nd, "1" * nd
+        texts = [
+            f"#line {dec}\nint x;", f"#line {dec} \"f.c\"\nint x;", f"# {dec} \"f.c\"\nint x;",
+            f"# {dec}\nint x;", f"# 1 \"f.c\" {dec}\nint x;", f"# 1 \"f.c\" 1 {dec} 3\nint x;",
+            f"#line 0{octd}\nint x;", f"#line 0x{hexd}\nint x;", f"#line {dec}u\nint x;",
+            f"int x = {dec};", f"int x = 0x{hexd};", f"int x = 0{octd};", f"int x = 0b{bind};",
+            f"int x = {dec}ULL;", f"int a[{dec}];", f"struct S {{ int b : {dec}; }};", f"enum E {{ A = {dec} }};",
+            f"double d = {dec}.{dec}e{dec};", f"double d = 1e{dec};", f"double d = 0x1.{hexd}p{dec};",
+            f"double d = .{dec}f;", f"int x = '\\{octd}';", f"int x = '\\x{hexd}';", f"char *s = \"\\x{hexd}\";",
+            f"char *s = \"\\u{hexd}\";", f"_Alignas({dec}) int x;", f"#pragma {dec}\nint x;", f"int x{dec};",
+            f"void f(void) {{ switch (1) {{ case {dec}: ; }} }}", f"int a[] = {{ [{dec}] = 1 }};",
+        ]
+        for t in texts:
+            for fname in ("f.c", ""):
+                out = core.parse_outcome(t, fname)
+                long_runs += 1
+                merge({out[0]: 1})
+                sig = oracle(out, fname, t)
+                if sig is not None:
+                    R.fail(sig, {"text": t, "digits": nd, "template": t.replace(dec, "<D>").replace(hexd, "<H>").replace(octd, "<O>").replace(bind, "<B>")[:80],
+                                 "filename": fname}, out[-1])
+    R.set("long_digit_run_inputs", long_runs)
+
     # (b) 1-edit neighbourhood of the small corpus files
     edits_run = 0
     maxtok = 60 if quick else 800
